@@ -29,7 +29,7 @@ Print Assumptions consumer_charged_sum_of_request_fees.
 Theorem total_charge_is_sum_of_recorded_fees :
   forall s x id batch d ps i,
     amt d (total_fees s x ps) = fees_in d (mk_requests s x id batch i ps).
-Proof. intros. apply total_fees_eq_request_fees. Qed.
+Proof. exact (fun s x id batch d ps i => total_fees_eq_request_fees s x id batch d ps i). Qed.
 Print Assumptions total_charge_is_sum_of_recorded_fees.
 
 (** A successful response: the request was active and addressed to the responder; its fee
